@@ -6,7 +6,7 @@ use crate::ctx::{guarded, show, Ctx};
 use crate::obs::*;
 use crate::rng::{Rng, H};
 use crate::runner::PropSpec;
-use crate::sources::block_on;
+use crate::sources::{block_on, ShortSink};
 use quick_xml::events::attributes::Attribute;
 use quick_xml::events::{BytesCData, BytesDecl, BytesEnd, BytesPI, BytesStart, BytesText, Event};
 use quick_xml::name::QName;
@@ -21,7 +21,7 @@ pub const SPEC: PropSpec = PropSpec {
     level: "exploration",
     rule: "Cases = sequences of builder calls (BytesStart::new / from_content followed by any edits push_attribute with (&str,&str) / (&str,Cow) / pre-escaped (&[u8],&[u8]) / Attribute, extend_attributes, with_attributes, clear_attributes, set_name; to_end; BytesEnd::new; BytesText::new and from_escaped; BytesCData::escaped (all pieces) and BytesCData::new for ']]>'-free content; comments via BytesText::new; BytesPI::new; BytesDecl::new over version x encoding x standalone; DocType; write_bom first; create_element(..).with_attribute(s)..write_{text,cdata,pi}_content / write_empty / write_inner_content) with payload strings from a hostile pool (both quotes, '<', '>', '&', ']]>', ']]]]>>', '--', '?>', leading/trailing/inner whitespace incl. TAB/LF/CR, entity look-alikes, NUL, non-ASCII, long strings). Every sequence is written through Writer::write_event, write_event_async, the ElementWriter sync methods and the ElementWriter async methods; the byte strings must be equal; element-builder calls are additionally written on an indenting writer with new_line() between attributes and must read back with the same name, attributes and content. The bytes are read back under the neutral configuration and compared with the model of the calls (adjacent texts coalesced, empty texts dropped, adjacent CDATA pieces coalesced): element and attribute names, unescaped attribute values, unescaped text and comment content, raw CDATA / PI content, declaration fields. Exhaustive over a 16-kind call alphabet up to length 3 (payloads chosen per position by the seed); random sequences up to length 6/12. Non-trivial = at least one payload contains a markup-significant character or an edit was applied between construction and writing.",
     assumptions: &["documented preconditions are respected by the generator: names are XML names, comment content has no '--' and does not end in '-', PI content has no '?>' and its target is not 'xml', BytesCData::new content has no ']]>', pre-escaped values are produced by escape(), attribute keys are unique per element, declared encodings are UTF-8"],
-    required: &["calls.StartNew", "calls.StartFromContent", "calls.End", "calls.Empty", "calls.TextNew", "calls.TextFromEscaped", "calls.CDataEscaped", "calls.CDataNew", "calls.Comment", "calls.PI", "calls.Decl", "calls.ElemText", "calls.ElemCData", "calls.ElemPI", "calls.ElemEmpty", "calls.ElemInner", "edits.SetName", "edits.Clear", "edits.PushBytes", "edits.Extend", "edits.With", "cdata_splits", "async_bytes_compared", "attr_values_compared", "builder_indented_with_new_line"],
+    required: &["sink_short_write_calls", "calls.StartNew", "calls.StartFromContent", "calls.End", "calls.Empty", "calls.TextNew", "calls.TextFromEscaped", "calls.CDataEscaped", "calls.CDataNew", "calls.Comment", "calls.PI", "calls.Decl", "calls.ElemText", "calls.ElemCData", "calls.ElemPI", "calls.ElemEmpty", "calls.ElemInner", "edits.SetName", "edits.Clear", "edits.PushBytes", "edits.Extend", "edits.With", "cdata_splits", "async_bytes_compared", "attr_values_compared", "builder_indented_with_new_line"],
     run,
     replay,
     thorough_layers: &[],
@@ -397,6 +397,7 @@ pub struct Local {
     attr_vals: u64,
     texts: u64,
     bytes_written: u64,
+    short_writes: u64,
     builder_newlines: u64,
 }
 
@@ -529,6 +530,30 @@ pub fn check(calls: &[Call], loc: &mut Local) -> Result<(), String> {
     loc.async_cmp += 1;
     if b1 != b2 {
         return Err(format!("write_event_async produced {:?} but write_event produced {:?}", show(&b2), show(&b1)));
+    }
+    // path 2b: the same events into sinks that accept only a few bytes per write call
+    // (io::Write::write may return any short count), synchronously and asynchronously with
+    // Pending answers
+    {
+        let max = 1 + (b1.len() + evs.len()) % 3;
+        let mut ws = Writer::new(ShortSink::new(max));
+        let mut wa = Writer::new(ShortSink::with_pending(max, 3));
+        if bom {
+            ws.write_bom().map_err(io_err)?;
+            wa.write_bom().map_err(io_err)?;
+        }
+        for e in &evs {
+            ws.write_event(e.borrow()).map_err(io_err)?;
+            block_on(wa.write_event_async(e.borrow()), 100_000)?.0.map_err(io_err)?;
+        }
+        let (ss, sa) = (ws.into_inner(), wa.into_inner());
+        loc.short_writes += ss.short + sa.short;
+        if ss.out != b1 {
+            return Err(format!("write_event into a sink taking {} byte(s) per write call produced {:?} but a Vec sink received {:?}", max, show(&ss.out), show(&b1)));
+        }
+        if sa.out != b1 {
+            return Err(format!("write_event_async into a sink taking {} byte(s) per poll_write produced {:?} but a Vec sink received {:?}", max, show(&sa.out), show(&b1)));
+        }
     }
     // path 3 / 4: element writers
     let mut w3 = Writer::new(Vec::new());
@@ -921,6 +946,7 @@ fn flush(ctx: &mut Ctx, loc: &Local) {
     ctx.add("attr_values_compared", loc.attr_vals);
     ctx.add("texts_read_back", loc.texts);
     ctx.add("bytes_written", loc.bytes_written);
+    ctx.add("sink_short_write_calls", loc.short_writes);
     ctx.add("builder_indented_with_new_line", loc.builder_newlines);
 }
 
